@@ -25,7 +25,7 @@ func Harness(prop string) func(ctx *common.Ctx) error {
 		case "C02":
 			cfg.C02Rate = 0.10
 		case "C05":
-			cfg.C02Rate = 0.02
+			cfg.C02Rate = 0.05
 		}
 		res.Rule = "histories of K sessions (SELECT, APPEND, STORE incl. .SILENT, EXPUNGE, COPY, MOVE, FETCH BODY[], UID FETCH probe, SEARCH, NOOP, CHECK, IDLE/DONE), deliveries of held state updates (the schedule, through the verifhook hold/release hook) and connector updates, generated online from one PRNG; non-trivial = distinct history in which at least one foreign update was delivered to a selected session"
 		var lines []string
@@ -43,6 +43,9 @@ func Harness(prop string) func(ctx *common.Ctx) error {
 			for _, f := range run.Fails {
 				if f.Prop == prop {
 					res.Fail(f.Canon, "corpus "+sc.Name+": "+f.Detail, map[string]interface{}{"history": run.Hist, "step": f.Step})
+				}
+				if prop == "C05" && f.Prop == "C02" && f.Canon == "session keeps showing a message that is no longer in the mailbox" {
+					res.Fail("removal never announced: "+f.Canon, "corpus "+sc.Name+": "+f.Detail, map[string]interface{}{"history": run.Hist, "step": f.Step})
 				}
 			}
 			lines = append(lines, run.CoqCase(10000+si))
@@ -75,6 +78,11 @@ func Harness(prop string) func(ctx *common.Ctx) error {
 			for _, f := range run.Fails {
 				if f.Prop == prop {
 					res.Fail(f.Canon, f.Detail, map[string]interface{}{"history": run.Hist, "step": f.Step})
+				}
+				// C05 "every removal is announced by the next command that permits it": at a quiescence point (all
+				// updates delivered, NOOP done) the session still shows a message the mailbox no longer holds
+				if prop == "C05" && f.Prop == "C02" && f.Canon == "session keeps showing a message that is no longer in the mailbox" {
+					res.Fail("removal never announced: "+f.Canon, f.Detail, map[string]interface{}{"history": run.Hist, "step": f.Step})
 				}
 			}
 			lines = append(lines, run.CoqCase(i+1))
